@@ -19,6 +19,7 @@ impl RegFile {
 impl Word {
     pub(crate) fn verif_mask(&self) -> u16 { self.init }
     pub(crate) fn verif_new(data: u16, init: u16) -> Word { Word { data, init } }
+    pub(crate) const fn verif_zero() -> Word { Word { data: 0, init: 0 } }
 }
 
 /// Two words "agree" when they have the same init mask and the same data on initialized bits,
